@@ -352,6 +352,37 @@ def special_models(rng):
             for me in m["lods"][li]:
                 me["shape_mesh"] = False
         out.append(("shape-on-late-mesh:start+count>=65536", m))
+    # (2) two meshes of a LOD that address the same vertex bytes (equal stream offsets, strides, count) under different declarations:
+    #     each is decoded by its own declaration
+    for _ in range(3):
+        m = gen_model(rng, 40)
+        l0 = m["lods"][0]
+        if len(l0) < 2 or m.get("stream_shuffle_seed") is not None:
+            continue
+        a = l0[0]
+        if a["vcount"] == 0:
+            continue
+        for _try in range(60):
+            els, strides = gen_decl(rng, a["nstreams"], None, need_position=[mdl.SINGLE3, mdl.SINGLE4] if l0[1].get("shape_mesh") else None)
+            if all(strides[s_] <= a["strides"][s_] for s_ in range(a["nstreams"])) and sorted(e[:4] for e in els) != sorted(e[:4] for e in a["elements"]):
+                b = l0[1]
+                b.update(elements=els, strides=list(a["strides"]), nstreams=a["nstreams"], vcount=a["vcount"], streams=list(a["streams"]), alias_of=0)
+                b["indices"] = [rng.randrange(max(b["vcount"], 1)) for _ in b["indices"]]
+                if not l0[1].get("shape_mesh"):
+                    out.append(("two-meshes-one-vertex-block-different-declarations", m))
+                break
+        if out and out[-1][0].startswith("two-meshes"):
+            break
+    # (3) two elements of the same usage in one declaration, in the same order in the declaration and in the vertex: a four-component
+    #     UV element (both sets) followed by a two-component one (the first set again); each element writes what it carries, in order
+    for ver in (0x1000005, 0x1000006):
+        t4 = rng.choice([mdl.HALF4, mdl.SINGLE4])
+        els = [(0, 0, mdl.SINGLE3, mdl.POSITION, 0), (0, 12, t4, mdl.UV, 0), (0, 12 + mdl.TYPE_SIZE[t4], mdl.HALF2, mdl.UV, 1)]
+        stride = 12 + mdl.TYPE_SIZE[t4] + 4 + rng.choice([0, 4])
+        vc = rng.randint(3, 40)
+        mesh = dict(unused_stride=0, elements=els, strides=[stride, 0, 0], nstreams=1, vcount=vc, streams=[rng.randbytes(vc * stride)], indices=[rng.randrange(vc) for _ in range(12)],
+                    submeshes=[(12, 0, 0, 0)], material=0, bone_table=0, shape_mesh=False)
+        out.append(("declaration:uv4-then-uv2", dict(version=ver, lods=[[mesh]], materials=["m.mtrl"], bones=[], attributes=[], bone_tables=[], submesh_bone_map=[], padding=0, element_ids=[], gap=0, header={}, shapes=[])))
     return out
 
 
